@@ -30,3 +30,276 @@ package ir
 //@   ensures old(fw.err) == nil ==> fw.size == old(fw.size) + n && fw.err == err && written(fw.w) == old(written(fw.w)) + n && wcalls(fw.w) == old(wcalls(fw.w)) + 1
 //@   ensures old(fw.err) == nil ==> firsterr(fw.w) == ite(old(firsterr(fw.w)) == nil, err, old(firsterr(fw.w))) && wafter(fw.w) == old(wafter(fw.w)) + ite(old(firsterr(fw.w)) == nil, 0, 1)
 
+
+//@ # ---------------------------------------------------------------- C06 ---
+//@ # Result types against LLVM's typing rules (macros in specs/llvm_types.spec). The cached
+//@ # type, when present, must satisfy the same rule (object invariant, stated as a precondition).
+//@ func (*InstFNeg).Type
+//@   props C06 C14
+//@   requires inst != nil && inst.X != nil && (inst.Typ == nil || inst.Typ == vtype(inst.X))
+//@   assigns inst.Typ
+//@   ensures result == vtype(inst.X) && inst.Typ == result
+//@ func (*InstAdd).Type
+//@   props C06 C14
+//@   requires inst != nil && inst.X != nil && (inst.Typ == nil || inst.Typ == vtype(inst.X))
+//@   assigns inst.Typ
+//@   ensures result == vtype(inst.X) && inst.Typ == result
+//@ func (*InstFAdd).Type
+//@   props C06 C14
+//@   requires inst != nil && inst.X != nil && (inst.Typ == nil || inst.Typ == vtype(inst.X))
+//@   assigns inst.Typ
+//@   ensures result == vtype(inst.X) && inst.Typ == result
+//@ func (*InstSub).Type
+//@   props C06 C14
+//@   requires inst != nil && inst.X != nil && (inst.Typ == nil || inst.Typ == vtype(inst.X))
+//@   assigns inst.Typ
+//@   ensures result == vtype(inst.X) && inst.Typ == result
+//@ func (*InstFSub).Type
+//@   props C06 C14
+//@   requires inst != nil && inst.X != nil && (inst.Typ == nil || inst.Typ == vtype(inst.X))
+//@   assigns inst.Typ
+//@   ensures result == vtype(inst.X) && inst.Typ == result
+//@ func (*InstMul).Type
+//@   props C06 C14
+//@   requires inst != nil && inst.X != nil && (inst.Typ == nil || inst.Typ == vtype(inst.X))
+//@   assigns inst.Typ
+//@   ensures result == vtype(inst.X) && inst.Typ == result
+//@ func (*InstFMul).Type
+//@   props C06 C14
+//@   requires inst != nil && inst.X != nil && (inst.Typ == nil || inst.Typ == vtype(inst.X))
+//@   assigns inst.Typ
+//@   ensures result == vtype(inst.X) && inst.Typ == result
+//@ func (*InstUDiv).Type
+//@   props C06 C14
+//@   requires inst != nil && inst.X != nil && (inst.Typ == nil || inst.Typ == vtype(inst.X))
+//@   assigns inst.Typ
+//@   ensures result == vtype(inst.X) && inst.Typ == result
+//@ func (*InstSDiv).Type
+//@   props C06 C14
+//@   requires inst != nil && inst.X != nil && (inst.Typ == nil || inst.Typ == vtype(inst.X))
+//@   assigns inst.Typ
+//@   ensures result == vtype(inst.X) && inst.Typ == result
+//@ func (*InstFDiv).Type
+//@   props C06 C14
+//@   requires inst != nil && inst.X != nil && (inst.Typ == nil || inst.Typ == vtype(inst.X))
+//@   assigns inst.Typ
+//@   ensures result == vtype(inst.X) && inst.Typ == result
+//@ func (*InstURem).Type
+//@   props C06 C14
+//@   requires inst != nil && inst.X != nil && (inst.Typ == nil || inst.Typ == vtype(inst.X))
+//@   assigns inst.Typ
+//@   ensures result == vtype(inst.X) && inst.Typ == result
+//@ func (*InstSRem).Type
+//@   props C06 C14
+//@   requires inst != nil && inst.X != nil && (inst.Typ == nil || inst.Typ == vtype(inst.X))
+//@   assigns inst.Typ
+//@   ensures result == vtype(inst.X) && inst.Typ == result
+//@ func (*InstFRem).Type
+//@   props C06 C14
+//@   requires inst != nil && inst.X != nil && (inst.Typ == nil || inst.Typ == vtype(inst.X))
+//@   assigns inst.Typ
+//@   ensures result == vtype(inst.X) && inst.Typ == result
+//@ func (*InstShl).Type
+//@   props C06 C14
+//@   requires inst != nil && inst.X != nil && (inst.Typ == nil || inst.Typ == vtype(inst.X))
+//@   assigns inst.Typ
+//@   ensures result == vtype(inst.X) && inst.Typ == result
+//@ func (*InstLShr).Type
+//@   props C06 C14
+//@   requires inst != nil && inst.X != nil && (inst.Typ == nil || inst.Typ == vtype(inst.X))
+//@   assigns inst.Typ
+//@   ensures result == vtype(inst.X) && inst.Typ == result
+//@ func (*InstAShr).Type
+//@   props C06 C14
+//@   requires inst != nil && inst.X != nil && (inst.Typ == nil || inst.Typ == vtype(inst.X))
+//@   assigns inst.Typ
+//@   ensures result == vtype(inst.X) && inst.Typ == result
+//@ func (*InstAnd).Type
+//@   props C06 C14
+//@   requires inst != nil && inst.X != nil && (inst.Typ == nil || inst.Typ == vtype(inst.X))
+//@   assigns inst.Typ
+//@   ensures result == vtype(inst.X) && inst.Typ == result
+//@ func (*InstOr).Type
+//@   props C06 C14
+//@   requires inst != nil && inst.X != nil && (inst.Typ == nil || inst.Typ == vtype(inst.X))
+//@   assigns inst.Typ
+//@   ensures result == vtype(inst.X) && inst.Typ == result
+//@ func (*InstXor).Type
+//@   props C06 C14
+//@   requires inst != nil && inst.X != nil && (inst.Typ == nil || inst.Typ == vtype(inst.X))
+//@   assigns inst.Typ
+//@   ensures result == vtype(inst.X) && inst.Typ == result
+//@ func (*InstFreeze).Type
+//@   props C06 C14
+//@   requires inst != nil && inst.X != nil && (inst.Typ == nil || inst.Typ == vtype(inst.X))
+//@   assigns inst.Typ
+//@   ensures result == vtype(inst.X) && inst.Typ == result
+//@ func (*InstInsertValue).Type
+//@   props C06 C14
+//@   requires inst != nil && inst.X != nil && (inst.Typ == nil || inst.Typ == vtype(inst.X))
+//@   assigns inst.Typ
+//@   ensures result == vtype(inst.X) && inst.Typ == result
+//@ func (*InstSelect).Type
+//@   props C06 C14
+//@   requires inst != nil && inst.ValueTrue != nil && (inst.Typ == nil || inst.Typ == vtype(inst.ValueTrue))
+//@   assigns inst.Typ
+//@   ensures result == vtype(inst.ValueTrue) && inst.Typ == result
+//@ func (*InstPhi).Type
+//@   props C06 C14
+//@   requires inst != nil && len(inst.Incs) >= 1 && inst.Incs[0] != nil && inst.Incs[0].X != nil && (inst.Typ == nil || inst.Typ == vtype(inst.Incs[0].X))
+//@   assigns inst.Typ
+//@   ensures result == vtype(inst.Incs[0].X) && inst.Typ == result
+//@ func (*InstTrunc).Type
+//@   props C06 C14
+//@   requires inst != nil
+//@   assigns nothing
+//@   ensures result == inst.To
+//@ func (*InstZExt).Type
+//@   props C06 C14
+//@   requires inst != nil
+//@   assigns nothing
+//@   ensures result == inst.To
+//@ func (*InstSExt).Type
+//@   props C06 C14
+//@   requires inst != nil
+//@   assigns nothing
+//@   ensures result == inst.To
+//@ func (*InstFPTrunc).Type
+//@   props C06 C14
+//@   requires inst != nil
+//@   assigns nothing
+//@   ensures result == inst.To
+//@ func (*InstFPExt).Type
+//@   props C06 C14
+//@   requires inst != nil
+//@   assigns nothing
+//@   ensures result == inst.To
+//@ func (*InstFPToUI).Type
+//@   props C06 C14
+//@   requires inst != nil
+//@   assigns nothing
+//@   ensures result == inst.To
+//@ func (*InstFPToSI).Type
+//@   props C06 C14
+//@   requires inst != nil
+//@   assigns nothing
+//@   ensures result == inst.To
+//@ func (*InstUIToFP).Type
+//@   props C06 C14
+//@   requires inst != nil
+//@   assigns nothing
+//@   ensures result == inst.To
+//@ func (*InstSIToFP).Type
+//@   props C06 C14
+//@   requires inst != nil
+//@   assigns nothing
+//@   ensures result == inst.To
+//@ func (*InstPtrToInt).Type
+//@   props C06 C14
+//@   requires inst != nil
+//@   assigns nothing
+//@   ensures result == inst.To
+//@ func (*InstIntToPtr).Type
+//@   props C06 C14
+//@   requires inst != nil
+//@   assigns nothing
+//@   ensures result == inst.To
+//@ func (*InstBitCast).Type
+//@   props C06 C14
+//@   requires inst != nil
+//@   assigns nothing
+//@   ensures result == inst.To
+//@ func (*InstAddrSpaceCast).Type
+//@   props C06 C14
+//@   requires inst != nil
+//@   assigns nothing
+//@   ensures result == inst.To
+//@ func (*InstLoad).Type
+//@   props C06 C14
+//@   requires inst != nil
+//@   assigns nothing
+//@   ensures result == inst.ElemType
+//@ func (*InstVAArg).Type
+//@   props C06 C14
+//@   requires inst != nil
+//@   assigns nothing
+//@   ensures result == inst.ArgType
+//@ func (*InstLandingPad).Type
+//@   props C06 C14
+//@   requires inst != nil
+//@   assigns nothing
+//@   ensures result == inst.ResultType
+//@ func (*InstCatchPad).Type
+//@   props C06 C14
+//@   requires inst != nil
+//@   assigns nothing
+//@   ensures result == boxed(types.Token)
+//@ func (*InstCleanupPad).Type
+//@   props C06 C14
+//@   requires inst != nil
+//@   assigns nothing
+//@   ensures result == boxed(types.Token)
+//@ func (*TermCatchSwitch).Type
+//@   props C06 C14
+//@   requires term != nil
+//@   assigns nothing
+//@   ensures result == boxed(types.Token)
+//@ func (*InstICmp).Type
+//@   props C06 C14
+//@   requires inst != nil && inst.X != nil && types.I1 != nil && types.I1.BitSize == 1
+//@   requires (typeis(vtype(inst.X), "*types.IntType") || typeis(vtype(inst.X), "*types.PointerType") || isVec(vtype(inst.X)))
+//@   requires inst.Typ == nil || cmpTy(inst.Typ, vtype(inst.X))
+//@   assigns inst.Typ
+//@   ensures cmpTy(result, vtype(inst.X)) && inst.Typ == result
+//@ func (*InstFCmp).Type
+//@   props C06 C14
+//@   requires inst != nil && inst.X != nil && types.I1 != nil && types.I1.BitSize == 1
+//@   requires (typeis(vtype(inst.X), "*types.FloatType") || isVec(vtype(inst.X)))
+//@   requires inst.Typ == nil || cmpTy(inst.Typ, vtype(inst.X))
+//@   assigns inst.Typ
+//@   ensures cmpTy(result, vtype(inst.X)) && inst.Typ == result
+//@ func (*InstAlloca).Type
+//@   props C06 C14
+//@   requires inst != nil && (inst.Typ == nil || ptrTo(boxed(inst.Typ), inst.ElemType, inst.AddrSpace))
+//@   assigns inst.Typ
+//@   ensures result != nil && ptrTo(result, inst.ElemType, inst.AddrSpace) && boxed(inst.Typ) == result
+//@ func (*InstCmpXchg).Type
+//@   props C06 C14
+//@   requires inst != nil && inst.New != nil && types.I1 != nil && types.I1.BitSize == 1 && (inst.Typ == nil || cmpxchgTy(boxed(inst.Typ), vtype(inst.New)))
+//@   assigns inst.Typ
+//@   ensures cmpxchgTy(result, vtype(inst.New)) && boxed(inst.Typ) == result
+//@ func (*InstAtomicRMW).Type
+//@   props C06 C14
+//@   requires inst != nil && inst.Dst != nil && typeis(vtype(inst.Dst), "*types.PointerType") && (inst.Typ == nil || inst.Typ == cast(vtype(inst.Dst), "*types.PointerType").ElemType)
+//@   assigns inst.Typ
+//@   ensures result == cast(vtype(inst.Dst), "*types.PointerType").ElemType && inst.Typ == result
+//@ func (*InstExtractElement).Type
+//@   props C06 C14
+//@   requires inst != nil && inst.X != nil && isVec(vtype(inst.X)) && (inst.Typ == nil || inst.Typ == velem(vtype(inst.X)))
+//@   assigns inst.Typ
+//@   ensures result == velem(vtype(inst.X)) && inst.Typ == result
+//@ func (*InstInsertElement).Type
+//@   props C06 C14
+//@   requires inst != nil && inst.X != nil && isVec(vtype(inst.X)) && (inst.Typ == nil || boxed(inst.Typ) == vtype(inst.X))
+//@   assigns inst.Typ
+//@   ensures result == vtype(inst.X) && boxed(inst.Typ) == result
+//@ func (*InstShuffleVector).Type
+//@   props C06 C14
+//@   requires inst != nil && inst.X != nil && inst.Mask != nil && isVec(vtype(inst.X)) && isVec(vtype(inst.Mask)) && (inst.Typ == nil || shuffleTy(boxed(inst.Typ), vtype(inst.X), vtype(inst.Mask)))
+//@   assigns inst.Typ
+//@   ensures shuffleTy(result, vtype(inst.X), vtype(inst.Mask)) && boxed(inst.Typ) == result
+//@ func (*InstCall).Type
+//@   props C06 C14
+//@   requires inst != nil && inst.Callee != nil && isFuncPtr(vtype(inst.Callee)) && (inst.Typ == nil || inst.Typ == calleeRet(vtype(inst.Callee)))
+//@   assigns inst.Typ
+//@   ensures result == calleeRet(vtype(inst.Callee)) && inst.Typ == result
+//@ func (*TermInvoke).Type
+//@   props C06 C14
+//@   requires term != nil && term.Invokee != nil && isFuncPtr(vtype(term.Invokee)) && (term.Typ == nil || term.Typ == calleeRet(vtype(term.Invokee)))
+//@   assigns term.Typ
+//@   ensures result == calleeRet(vtype(term.Invokee)) && term.Typ == result
+//@ func (*TermCallBr).Type
+//@   props C06 C14
+//@   requires term != nil && term.Callee != nil && isFuncPtr(vtype(term.Callee)) && (term.Typ == nil || term.Typ == calleeRet(vtype(term.Callee)))
+//@   assigns term.Typ
+//@   ensures result == calleeRet(vtype(term.Callee)) && term.Typ == result
